@@ -152,7 +152,7 @@ UNSPEC_REASONS = {
 }
 
 
-def decide(sysv, cons, prov, spv, wm, ffb, req, af):
+def decide(sysv, cons, prov, spv, wm, ffb, req, af, downloaded=False):
     """-> (outcome, attempted_fallback) with outcome one of ('system', v) ('subproject', v) ('override', v) ('notfound',)
     ('error',) or ('unspecified', reason)."""
     fail = ('error',) if req else ('notfound',)
@@ -174,7 +174,7 @@ def decide(sysv, cons, prov, spv, wm, ffb, req, af):
     if not forced and sys_ok:                                                # [Y2] system first unless forced
         return ('system', sysv), False
     if has_fb and allowed:
-        if prov == 'wrap' and wm == 'nodownload':                            # [S4] [S3] not downloaded before => unavailable
+        if prov == 'wrap' and wm == 'nodownload' and not downloaded:         # [S4] [S3] not downloaded before => unavailable
             return fail, True
         return (('subproject', spv) if satisfies(spv, cons) else fail), True
     return fail, False
@@ -448,6 +448,101 @@ def part_table(ck, classes):
         ck.require(exp_hist.get(k, 0) > 20, 'decision table never expects outcome %s' % k)
     ck.require(compared > 1000, 'decision table compared too little')
     return n_cells, compared, sum(skipped.values()), setups + len(sl)
+
+
+# ---- (a') the same table after a change of policy in an existing build directory -----------------------------------------
+# The policy is a function of the current wrap_mode / force_fallback_for and of what is on disk; what an earlier
+# configuration of the same build directory resolved (and cached) is not an input.
+def hist_batch(job):
+    wm1, ffb1, wm2, ffb2, cells = job
+    root = fresh_root('hst')
+    files = {}
+    names = []
+    for i, cell in cells:
+        files['subprojects/c%s/meson.build' % i] = cell_files(root, i, cell, files)
+        names.append("'c%s'" % i)
+    files['pc/.keep'] = ''
+    files['meson.build'] = "project('super')\nforeach n : [%s]\n  subproject(n, required: false)\nendforeach\nmessage('VERIF-DONE')\n" % ', '.join(names)
+    mp.write_tree(root, files)
+    env = mp.base_env(PKG_CONFIG_LIBDIR=os.path.join(root, 'pc'))
+    ids = [i for i, _ in cells]
+    r1 = mp.run_meson(setup_argv(wm1, ffb_names_for(ffb1, ids)), root, env=env, pre=pre_hook, timeout=600)
+    done1 = 'Message: VERIF-DONE' in r1.out
+    pre, res = parse_obs(r1.out)
+    obs1 = {i: obs_of(pre, res, (str(i), 0)) for i in ids}
+    on_disk = {i: os.path.isdir(os.path.join(root, 'subprojects', 's%s' % i)) for i in ids}
+    argv2 = ['setup', 'bld', '--reconfigure', '--wrap-mode=' + wm2, '--force-fallback-for=' + ','.join(ffb_names_for(ffb2, ids))]
+    r2 = mp.run_meson(argv2, root, env=env, pre=pre_hook, timeout=600) if done1 else None
+    done2 = r2 is not None and 'Message: VERIF-DONE' in r2.out
+    obs2 = {}
+    if r2 is not None:
+        pre, res = parse_obs(r2.out)
+        obs2 = {i: obs_of(pre, res, (str(i), 0)) for i in ids}
+    shutil.rmtree(root, ignore_errors=True)
+    tail = '' if (done1 and done2) else (r1.out[-600:] if not done1 else r2.out[-900:])
+    return done1, done2, bool(r1.unhandled or (r2 is not None and r2.unhandled)), obs1, obs2, on_disk, tail
+
+
+def part_hist(ck, classes):
+    cells = list(itertools.product(SYS, CONS, PROV, ['2.5'], REQ, AF))
+    settings = [(wm, ffb) for wm in WM for ffb in FFB]
+    base = ('default', 'none')
+    if ck.thorough:
+        trans = [(a, b) for a in settings for b in settings if a != b]
+    else:
+        trans = [(base, b) for b in settings if b != base] + [(a, base) for a in settings if a != base]
+    jobs = []
+    for (wm1, ffb1), (wm2, ffb2) in trans:
+        todo = []
+        for idx, cell in enumerate(cells):
+            o1, _ = decide(*cell[:4], wm1, ffb1, *cell[4:])
+            if o1[0] == 'unspecified' and o1[1] == 'U1':
+                continue
+            todo.append((idx, cell))
+        for k in range(0, len(todo), 45):
+            jobs.append((wm1, ffb1, wm2, ffb2, todo[k:k + 45]))
+    compared = changed = setups = 0
+    queue = jobs
+    rounds = 0
+    while queue and rounds < 12:
+        rounds += 1
+        nxt = []
+        for (done1, done2, unh, obs1, obs2, on_disk, tail), job in zip(pmap(hist_batch, queue), queue):
+            wm1, ffb1, wm2, ffb2, cs = job
+            setups += 2
+            if not (done1 and done2):
+                if len(cs) > 1:
+                    h = len(cs) // 2
+                    nxt.append((wm1, ffb1, wm2, ffb2, cs[:h]))
+                    nxt.append((wm1, ffb1, wm2, ffb2, cs[h:]))
+                    continue
+                cell = cs[0][1]
+                ck.violation('C10:history:%s:%s' % ('unhandled-exception' if unh else 'setup-aborted', cell[2]),
+                             'configured with %s/%s, then --reconfigure with %s/%s: meson setup aborted although the lookup sits in '
+                             'subproject(required: false): %s' % (wm1, ffb1, wm2, ffb2, tail[-300:]),
+                             {'part': 'history', 'first': [wm1, ffb1], 'second': [wm2, ffb2], 'cell': list(cell)})
+                continue
+            for i, cell in cs:
+                out2, _ = decide(*cell[:4], wm2, ffb2, *cell[4:], downloaded=on_disk[i])
+                if out2[0] == 'unspecified':
+                    continue
+                exp = expected_obs(out2)
+                compared += 1
+                changed += obs1[i] != obs2.get(i)
+                classes.add(('history', out2[0], wm1 == 'default'))
+                if obs2.get(i) != exp:
+                    key = 'C10:history:%s:exp-%s:got-%s' % (cell[2], out2[0], obs2.get(i, ('?',))[0])
+                    ck.violation(key, 'dependency() cell %s after the build directory was first configured with wrap_mode=%s force_fallback_for=%s '
+                                 '(where it gave %s): documented policy gives %s, meson gives %s' % (
+                                     cell_dict(wm2, ffb2, cell), wm1, ffb1, obs1[i], out2, obs2.get(i)),
+                                 {'part': 'history', 'first': [wm1, ffb1], 'second': [wm2, ffb2], 'cell': list(cell),
+                                  'expected': list(exp), 'observed': list(obs2.get(i, ()))})
+        queue = nxt
+    if queue:
+        ck.internal('history batches did not converge')
+    ck.part('history', transitions=len(trans), cells_per_transition=len(cells), compared=compared, outcome_changed_by_the_new_policy=changed, setups=setups)
+    ck.require(changed > 100 or ck.n_viol > 0, 'history part: the second policy hardly ever changed an outcome')
+    return compared, setups
 
 
 # =========================================================================================================
@@ -1173,6 +1268,15 @@ def replay(ck):
         if obs['expect'] == 'unspecified':
             problems = [p for p in problems if p[0].startswith(('C10:acq:unhandled-exception', 'C10:acq:second-run-accepts', 'C10:acq:setup-aborted'))]
         sys.exit(1 if problems else 0)
+    if part == 'history':
+        cell = tuple(d['cell'])
+        (wm1, ffb1), (wm2, ffb2) = d['first'], d['second']
+        done1, done2, unh, obs1, obs2, on_disk, tail = hist_batch((wm1, ffb1, wm2, ffb2, [(0, cell)]))
+        out2, _ = decide(*cell[:4], wm2, ffb2, *cell[4:], downloaded=on_disk[0])
+        print('cell     :', cell_dict(wm2, ffb2, cell), 'first configured with', wm1, ffb1)
+        print('expected :', out2)
+        print('observed : first', obs1.get(0), 'then', obs2.get(0), tail[-300:])
+        sys.exit(1 if not (done1 and done2) or (out2[0] != 'unspecified' and obs2.get(0) != expected_obs(out2)) else 0)
     if part == 'shared':
         problems, obs = shared_case(d['case'])
         print('case     :', d['case'])
@@ -1197,6 +1301,12 @@ def main():
         ck.part('table', wall_s=round(time.time() - t0, 1))
         evals += compared
         skipped += sk
+        runs += setups
+    if ck.want('history'):
+        t0 = time.time()
+        n, setups = part_hist(ck, classes)
+        ck.part('history', wall_s=round(time.time() - t0, 1))
+        evals += n
         runs += setups
     if ck.want('seq'):
         t0 = time.time()
@@ -1227,7 +1337,8 @@ def main():
               rule='(a) every cell of system{absent,1.0,2.0} x constraint{none,>=1.5,>=3} x provider{none,fallback:,wrap [provide],configured earlier,'
                    'override_dependency} x subproject version%s x wrap_mode{default,nofallback,nodownload,forcefallback} x force_fallback_for{[],[dep],[subproject]} '
                    'x required x allow_fallback{unset,true,false}, one real dependency() per cell in its own capsule subproject, compared with the documented '
-                   'decision function; a slice re-run as stand-alone projects (exit status; half of them in a cold process). '
+                   'decision function; a slice re-run as stand-alone projects (exit status; half of them in a cold process); the table again after '
+                   'the build directory was first configured under another (wrap_mode, force_fallback_for) pair (quick: to and from the default pair; thorough: all 132 ordered pairs). '
                    '(b) every sequence <= 3 (see parts.sequences.max_len) of lookups of one name over constraint x required x allow_fallback x native, '
                    'extended only from prefixes that did not fail (a failing lookup ends its capsule). '
                    '(c) FAULT ENUMERATION: {source,patch} x {primary URL, fallback URL after missing/corrupt primary, package cache, packagefiles} x '
